@@ -51,3 +51,4 @@ macro_rules! harness {
 }
 
 pub mod c02;
+pub mod c06;
